@@ -226,6 +226,21 @@ def F24(_fil):
     return type(h.foff).__name__ != "float", f"from_pfits foff is {type(h.foff).__name__}, fch1 is {type(h.fch1).__name__}"
 
 
+def F25(_fil):
+    import shutil
+    from astropy.io import fits
+    shutil.copy(FITS, "asc.sf")
+    with fits.open("asc.sf", mode="update") as h:
+        t = h["SUBINT"].data
+        for i in range(len(t)):
+            t["DAT_FREQ"][i] = t["DAT_FREQ"][i][::-1].copy()
+        h.flush()
+    a, b = PFITSReader(FITS), PFITSReader("asc.sf")
+    flipped = np.array_equal(b.read_block(0, 64).data, a.read_block(0, 64).data[::-1])
+    return flipped and b.header.foff > 0, (f"ascending PSRFITS: reader flips data to descending order ({flipped}) but header says "
+                                           f"fch1={b.header.fch1:.1f} foff={b.header.foff:+.1f}")
+
+
 def F26(fil):
     ts = fil.read_chan(3, **Q)
     names = fil.extract_chans([5], outfile_base="f26", **Q)
